@@ -78,6 +78,7 @@ def judge(case, ex):
     expected = collections.Counter()
     for x in items:
         if fan == 'echo': expected.update(['echo:' + repr(x)]); continue
+        if x in faults and fan == 'raise-mid': expected.update([10 * x]); continue      # the output before the failure may or may not arrive
         if x in faults: continue
         if fan == 'two': expected.update([10 * x, 10 * x + 1])
         elif fan == 'skip1' and x == 1: pass
@@ -179,6 +180,11 @@ class C08(Check):
                 for k in (2, 3):
                     if tier == 'quick' and k == 3 and (n, m) != (1, 1): continue
                     out.append({'wrapper': wrapper, 'n': n, 'm': m, 'items': k, 'faults': [], 'consumer': 'all', 'fan': fan})
+        # a generator-valued filter output that raises AFTER its first output
+        for wrapper, n, m in (('mp', 2, 0), ('mp', 1, 1), ('mp', 2, 1), ('coba', 2, 0), ('coba', 1, 1)):
+            for k, x in ((2, 1), (2, 2), (3, 2)):
+                if tier == 'quick' and (k == 3 or (wrapper == 'coba' and x == 2)): continue
+                out.append({'wrapper': wrapper, 'n': n, 'm': m, 'items': k, 'faults': [x], 'consumer': 'all', 'fan': 'raise-mid'})
         # item VALUES that are falsy / None (a stream may carry them): every rotation of [None, 0, '', ()] as the first 1..4 items
         for wrapper, n, m in (('mp', 2, 0), ('mp', 1, 1), ('coba', 2, 0), ('coba', 1, 1), ('coba', 1, 0), ('mp', 1, 0)):
             for rot in range(4):
